@@ -140,8 +140,12 @@ class Ctx:
             return 'falsy'
         return 'other:%r' % (resource,)
 
-    def act(self, site, kind, resp):
+    def act(self, site, kind, resp, req=None):
         a = self.actions.get(site, 'ret')
+        if a.startswith('reroute:'):
+            self.performed.append((kind, 'reroute'))
+            req.path = M.kind_request(a.split(':', 1)[1])[1]
+            return
         self.performed.append((kind, a))
         if a == 'ret':
             return
@@ -178,7 +182,7 @@ def _mw_method(ctx, i, m, tag, is_async):
     if m == 'req':
         def body(req, resp):
             ctx.trace.append(('req', i, tag))
-            ctx.act(site, 'req', resp)
+            ctx.act(site, 'req', resp, req)
         if is_async:
             async def fn(self, req, resp):
                 body(req, resp)
@@ -775,6 +779,12 @@ EXH_HOOK_FORMS = (
 HOOK_FORMS = M.SYNC_HOOK_FORMS + M.ASYNC_ONLY_HOOK_FORMS
 
 
+# (original kind, kind whose path the request middleware assigns, also combined with every single fault?)
+REROUTES = (('route', 'unrouted', True), ('unrouted', 'route', True), ('route', 'sink', False),
+            ('route', 'field', False), ('sink', 'suffix', False), ('field', 'falsy', False),
+            ('unrouted', 'sink', False), ('falsy', 'route', False))
+
+
 def method_kinds():
     ms = M.HTTP_EXTRA + M.WEBDAV + (M.CUSTOM if CUSTOM_OK else ())
     return ['m:' + m for m in ms] + ['ms:' + m for m in M.SUFFIXED_EXTRA if m in ms]
@@ -784,11 +794,10 @@ def exhaustive_plan(tier):
     """[(max components, {kind: (max faults, number of faults from which the reduced action set is used)})]"""
     if tier == 'quick':
         plan = {'route': (2, 2), 'sink': (1, 2), 'unrouted': (1, 2), 'nomethod': (1, 2), 'options': (1, 2),
-                'field': (1, 2), 'suffix': (1, 2), 'falsy': (1, 2)}
-        # every other implemented method (HTTP, WebDAV, custom; plain and suffixed): fault-free, and single
-        # faults for one representative of each class
+                'field': (1, 2), 'suffix': (0, 2), 'falsy': (1, 2)}
+        # every other implemented method (HTTP, WebDAV, custom; plain and suffixed): fault-free (the thorough
+        # tier adds every single fault)
         plan.update({k: (0, 2) for k in method_kinds()})
-        plan.update({k: (1, 2) for k in ('m:PROPFIND',) if k in plan})
         return [(2, plan)]
     plan = {'route': (3, 3), 'sink': (2, 3), 'unrouted': (2, 3), 'nomethod': (2, 3), 'options': (2, 3),
             'field': (2, 3), 'suffix': (1, 2), 'falsy': (1, 2)}
@@ -826,6 +835,21 @@ def exhaustive(rec):
                             check_case(rec, script, case, app, ctx)
                             rec.case(case_key(skey, case) if actions else None)
                             rec.count('exh.faults.%d' % len(actions))
+                    if maxcomp == 2:
+                        # request middleware re-routes the request (assigns req.path): alone, and combined with
+                        # every single fault for the pairs that change the route class
+                        req_sites = [x for x in reachable_sites(script, 'route') if x.endswith('.req')]
+                        for orig, target, with_faults in REROUTES:
+                            sites = reachable_sites(script, target)
+                            for rs in req_sites:
+                                others = [x for x in sites if x != rs]
+                                for actions, hactions in placements(others, 1 if with_faults else 0, 1, 0):
+                                    actions = dict(actions)
+                                    actions[rs] = 'reroute:' + target
+                                    case = {'stack': stack, 'kind': orig, 'actions': actions, 'hactions': hactions}
+                                    check_case(rec, script, case, app, ctx)
+                                    rec.case(case_key(skey, case))
+                                    rec.count('exh.reroute')
                     if maxcomp == 2 and len(comps) == 1:
                         # the same one-component stack spelled differently, with and without the implicit
                         # CORS component: nothing changes for the user's component
@@ -844,7 +868,7 @@ def exhaustive(rec):
                         # the app is reconfigured between requests: the 2nd component is registered with
                         # add_middleware() only after the app has served requests
                         app, ctx = build_app(script, stack, defer_from=1)
-                        sites = reachable_sites(script, 'route')
+                        sites = [x for x in reachable_sites(script, 'route') if x.startswith('M')]
                         for pre in (1, None):
                             if pre is None:
                                 ctx.add_pending()
@@ -981,10 +1005,18 @@ def random_case(rng, script, stack):
     # only sites that exist on this stack
     eff = dict(M.effective(script, stack))
     sites = [s for s in sites if not s.startswith('M') or eff[int(s[1:s.index('.')])][s.split('.')[1]]]
+    reroute = None
+    if kind in M.GET_KINDS and rng.random() < 0.3:
+        rs = [s for s in sites if s.endswith('.req')]
+        if rs:
+            reroute = (rng.choice(rs), rng.choice([k for k in M.GET_KINDS if k != kind]))
+            sites = sites + [s for s in reachable_sites(script, reroute[1]) if s not in sites]
     nf = min(len(sites), rng.choice([0, 1, 1, 2, 2, 3, 3, 4, 5, 6]))
     actions = {}
     for s in rng.sample(sites, nf):
         actions[s] = rng.choice(site_actions(s, False))
+    if reroute:
+        actions[reroute[0]] = 'reroute:' + reroute[1]
     hactions = [rng.choice(H_ACTIONS) for _ in range(rng.randint(1, 3))]
     return {'stack': stack, 'kind': kind, 'actions': actions, 'hactions': hactions}
 
@@ -1232,6 +1264,9 @@ def set_floors(rec):
                   'inherit.base_hook', 'own.class_hook', 'form.object', 'form.wrapped', 'form.object.classhook',
                   'form.wrapped.classhook', 'form.object.classhook.inherited'):
             rec.floor('cls.%s.%s' % (stack, c), 20)
+        rec.floor('site.%s.req.reroute' % stack, 50)
+        for orig, target, _ in REROUTES:
+            rec.floor('cls.%s.reroute.%s->%s' % (stack, orig, target), 10)
         for hf in M.SYNC_HOOK_FORMS:
             rec.floor('cls.%s.hform.%s' % (stack, hf), 20)
             rec.floor('cls.%s.sform.%s' % (stack, hf), 20)
@@ -1281,6 +1316,9 @@ def run(rec):
     rec.assumptions = ['reference interpreter vlib/models/c03_stack.py reads docs/api/middleware.rst correctly',
                        'error handlers raise only HTTPError/HTTPStatus (what the documentation allows)',
                        'resp.complete set inside a before hook is not exercised (undocumented)',
+                       'WebSocket connections (process_request_ws / process_resource_ws / on_websocket) are not part of '
+                       'this property: its discipline (resp.complete, response methods, req_succeeded) is the HTTP '
+                       'one; C17 covers the WebSocket flow',
                        'ASGI error handlers and sinks are coroutine functions; hook actions and lifespan handlers are '
                        'any callable returning an awaitable',
                        'FALCON_ASGI_WRAP_NON_COROUTINES (falcon test-suite switch) is removed from the environment',
